@@ -371,6 +371,18 @@ fn random_history(t: &mut Tape, gates: &Gates) -> Vec<Note> {
                     let cut = text.rfind("END_").unwrap_or(text.len());
                     format!("{}\n\n  \n", &text[..cut])
                 }
+                // several lexical errors in one document (adjacent, on one line, on different lines):
+                // whatever one front end reports for such a file the other reports too
+                3 => {
+                    let junk = *t.pick(&["??", "? ?", "@~", "?\n?", "`!`"]);
+                    let mut out = text.replacen("END_", &format!("{}END_", junk), 1);
+                    if t.flag() {
+                        if let Some(p) = out.rfind(';') {
+                            out.insert(p, '?');
+                        }
+                    }
+                    out
+                }
                 _ => text,
             };
             // degenerate documents now and then: nothing, blanks, a lone comment, unmatched text
